@@ -6,7 +6,7 @@ C15: which declarations are written to the same file, and why. Import-free.
 come from; `collisions`: pairs of *different* declarations mapped to one path; `cause`: the shape of a
 collision (the key of the known finding).
 -/
-namespace Pydjinni.Gen
+namespace Pydjinni.GenC
 
 /-- qualified IDL name -/
 def qname (d : Decl) : List String := d.ns ++ [d.name]
@@ -74,4 +74,4 @@ def noOverwrite {κ : Type} [DecidableEq κ] (log : List (String × κ)) : Bool 
 def overwritten {κ : Type} [DecidableEq κ] (log : List (String × κ)) : List String :=
   (log.filter (fun a => log.any (fun b => a.1 == b.1 && a.2 != b.2))).map (·.1) |>.eraseDups
 
-end Pydjinni.Gen
+end Pydjinni.GenC
